@@ -38,5 +38,12 @@ Definition allowed_binding (b : binding) : bool :=
   || str_eqb (b_name b) s_arg_types
   || ((b_mod b =? 10)%nat && (str_eqb (b_name b) s_PRECEDENCES || str_eqb (b_name b) s_BINARY_OPERATORS)).
 
+(* A module- or class-level container that no store and no mutator call anywhere in the package mentions is a
+   constant table, whatever its name: nothing can flow through it. *)
+Fixpoint infix_of (p s : str) : bool :=
+  prefix_of p s || match s with [] => false | _ :: s' => infix_of p s' end.
+Definition untouched (es : list effect) (b : binding) : bool :=
+  match b_name b with [] => false | _ => negb (existsb (fun e => infix_of (b_name b) (e_what e)) es) end.
+
 Definition pure_package (es : list effect) (bs : list binding) : bool :=
-  forallb allowed es && forallb allowed_binding bs.
+  forallb allowed es && forallb (fun b => allowed_binding b || untouched es b) bs.
